@@ -578,3 +578,42 @@ func TestC10Constants(t *testing.T) {
 	}
 	col.Exhaustive = true
 }
+
+// The same sweep for the differential of C10: a delay at every hand-over point in turn, every operation.
+func TestC10HookSweep(t *testing.T) {
+	col := coll("C10", "hook-sweep")
+	var docs []string
+	f := model.Forest{{Name: "a", Kids: []*model.T{{Name: "b", Kids: []*model.T{{Name: "c.b"}}}, {Name: "d"}}}, {Name: "e"}, {Name: "f", Kids: []*model.T{{Name: "g"}}}}
+	for i := 0; i < 9; i++ {
+		f = append(f, &model.T{Name: fmt.Sprintf("r%d", i), Kids: []*model.T{{Name: "k"}}})
+	}
+	docs = append(docs, model.Spell(f, model.Plain2), model.Spell(f, model.Panel[3]), model.Spell(f, model.Panel[4]))
+	col.Rule = fmt.Sprintf("every one of the %d verif hook points x {sleep 2 ms, 50 yields, sleep on the first arrival only} x every operation x 3 spellings of a 12-root forest; massive vs simple", len(hookPoints))
+	n := 0
+	for _, p := range hookPoints {
+		for _, act := range []ops.HookAct{{Action: "sleep", N: 2000}, {Action: "gosched", N: 50}, {Action: "sleep", N: 3000, First: 1}} {
+			for _, op := range c10Ops {
+				for di, d := range docs {
+					n++
+					if n%nshards != shard {
+						continue
+					}
+					if !thorough() && (n/nshards)%3 != 0 { // quick tier: a third of the grid
+						continue
+					}
+					c := c10Case{Doc: []byte(d), Op: op, Roots: len(f), Origin: "well-formed", Exts: []string{"b"}, Heading: di == 1,
+						Sched: ops.Sched{Hook: map[string]ops.HookAct{p: act}, GOMAXPROCS: []int{0, 1, 2, 16}[n%4]}}
+					if op == "verify" {
+						c.Pre = materialize(f, nil, map[int]bool{n % f.Count(): true})
+						c.Strict = n%2 == 0
+					}
+					c10Record(col, c, nil)
+					if msg := c10Check(c); msg != "" {
+						violation(t, "C10", "c10", c, msg)
+					}
+				}
+			}
+		}
+	}
+	col.Exhaustive = true
+}
